@@ -118,8 +118,18 @@ class Engine(_Base, ExprMixin, CallMixin, StmtMixin):
                 for nm, g in spec['check'](self, s, self.entry_state, self.entry_env):
                     self.check(s, g, '%s/await%d[%s]' % (c.target, k, nm))
             if spec.get('havoc', True):
+                # objects the function owns across this await (A-IMMUT: nobody else mutates them meanwhile)
+                owned = []
+                for text in spec.get('owned', []):
+                    ov = self.spec_val(s, text)
+                    ov = ov.some() if isinstance(ov, VOpt) else ov
+                    owned.append(ov.t)
+                before = dict(s.heap)
                 for key in list(s.heap.keys()):
                     self.heap_set(s, key, z3.Const(fresh_name('Ha:' + ':'.join(map(str, key))), s.heap[key].sort()))
+                    if key[0] == 'f':
+                        for o in owned:
+                            s.heap[key] = z3.Store(s.heap[key], o, z3.Select(before[key], o))
                 a = z3.Int(fresh_name('alloc'))
                 s.assume(a >= s.alloc)
                 s.alloc = a
@@ -130,7 +140,11 @@ class Engine(_Base, ExprMixin, CallMixin, StmtMixin):
                 self.raise_exc(s2, self.resolve_class_name(self.cur_info, cls))
                 out.append((s2, None))
             rty = spec.get('result')
-            out.append((s, VNone() if rty is None else self.fresh_val(s, rty, 'awaited')))
+            # awaiting a call of a coroutine function under contract / inlined: its result; awaiting a future: declared type
+            rv = (v if (isinstance(e.value, ast.Call) and v is not None) else VNone()) if rty is None else self.fresh_val(s, rty, 'awaited')
+            for cl in spec.get('result_assume', []):
+                s.assume(self.eval_clause(s, cl, dict(self.visible_env(s), result=rv), self.cur_info, old_st=self.entry_state))
+            out.append((s, rv))
         return out
 
     def do_yield(self, st, e):
@@ -353,6 +367,13 @@ class Engine(_Base, ExprMixin, CallMixin, StmtMixin):
                 label, note = self.frame_label(c.target, key)
                 self.check(s, goal, label, note=note)
 
+    def pre_view(self, s, entry):
+        """the final state's path condition and ghosts, but reading the heap of the entry state: conditions of
+        `raises` clauses speak about the pre-state"""
+        v = s.copy()
+        v.heap = dict(entry.heap)
+        return v
+
     def check_exits(self, c, info, finals, entry, env):
         name = c.target
         n_norm = 0
@@ -373,7 +394,10 @@ class Engine(_Base, ExprMixin, CallMixin, StmtMixin):
                         raise Unsupported('%s: result %r does not fit declared result type' % (name, result))
                 for cls, cond in c.raises.items():
                     if cond != MAY:
-                        g = z3.Not(self.eval_clause(s, cond, env, info, old_st=entry))
+                        pv = self.pre_view(s, entry)
+                        g = z3.Not(self.eval_clause(pv, cond, env, info, old_st=entry))
+                        for f in pv.pc[len(s.pc):]:
+                            s.assume(f)
                         self.check(s, g, '%s/raises[%s]/iff' % (name, cls), note='normal return although: %s' % cond)
                 lemmas = []
                 if getattr(c, 'exit_lemmas', None) is not None:
@@ -415,7 +439,10 @@ class Engine(_Base, ExprMixin, CallMixin, StmtMixin):
                 s2 = s
                 s2.exc = None
                 if cond != MAY:
-                    g = self.eval_clause(s2, cond, env, info, old_st=entry)
+                    pv = self.pre_view(s2, entry)
+                    g = self.eval_clause(pv, cond, env, info, old_st=entry)
+                    for f in pv.pc[len(s2.pc):]:
+                        s2.assume(f)
                     self.check(s2, g, '%s/raises[%s]/only_if' % (name, cls), note=str(cond))
                 for nm, cl in c.raises_post.get(cls, {}).items():
                     g = self.eval_clause(s2, cl, env, info, old_st=entry)
